@@ -1,1 +1,306 @@
-fn main() { println!("stub"); }
+//! vsched — engine B (preemption-bounded exhaustive scheduling on shuttle) and engine C
+//! (stateright) checks: `vsched C22|C29 [--tier quick|thorough] [--replay FILE]`.
+//! Built with `--cfg oxidize_pdf_verif --cfg oxidize_pdf_verif_sched`.
+
+mod bdfs;
+mod c22;
+mod c29;
+mod lru;
+
+use serde_json::json;
+use std::fs::File;
+use std::io::Write;
+use std::os::fd::{AsRawFd, FromRawFd};
+use std::sync::Mutex;
+
+extern "C" {
+    fn dup(fd: i32) -> i32;
+    fn dup2(old: i32, new: i32) -> i32;
+}
+
+static LOG: Mutex<Option<File>> = Mutex::new(None);
+static LAST_PANIC: Mutex<Option<String>> = Mutex::new(None);
+
+/// Progress output that keeps working while fd 2 is muted.
+pub fn elog(s: &str) {
+    let mut g = LOG.lock().unwrap();
+    match g.as_mut() {
+        Some(f) => {
+            let _ = writeln!(f, "{s}");
+        }
+        None => eprintln!("{s}"),
+    }
+}
+
+/// shuttle prints to stderr on every deadlock it reports; a defect that deadlocks on every
+/// schedule would print millions of lines. fd 2 is pointed at /dev/null while exploring.
+struct Muted {
+    saved: i32,
+}
+impl Muted {
+    fn new() -> Option<Muted> {
+        if std::env::var("VSCHED_LOUD").is_ok() {
+            return None;
+        }
+        let null = File::options().write(true).open("/dev/null").ok()?;
+        unsafe {
+            let saved = dup(2);
+            if saved < 0 {
+                return None;
+            }
+            let logfd = dup(2);
+            if logfd >= 0 {
+                *LOG.lock().unwrap() = Some(File::from_raw_fd(logfd));
+            }
+            dup2(null.as_raw_fd(), 2);
+            Some(Muted { saved })
+        }
+    }
+}
+impl Drop for Muted {
+    fn drop(&mut self) {
+        unsafe {
+            dup2(self.saved, 2);
+        }
+        *LOG.lock().unwrap() = None;
+        let _ = unsafe { File::from_raw_fd(self.saved) };
+    }
+}
+
+fn init_panic_handling() {
+    // Let shuttle install its (chatty) panic hook now — it does so once per process — and then
+    // replace it: job operations panic on purpose in a third of all configurations.
+    let r = shuttle::Runner::new(shuttle::scheduler::DfsScheduler::new(Some(1), false), bdfs::shuttle_config());
+    r.run(|| {});
+    let loud = std::env::var("VSCHED_LOUD").is_ok();
+    let prev = std::panic::take_hook();
+    std::panic::set_hook(Box::new(move |info| {
+        let msg = bdfs::panic_message(info.payload());
+        let loc = info.location().map(|l| format!("{}:{}", l.file(), l.line())).unwrap_or_default();
+        if !msg.starts_with("C22 harness: job") && !msg.starts_with("deadlock!") {
+            *LAST_PANIC.lock().unwrap() = Some(format!("{msg} @ {loc}"));
+        }
+        if loud {
+            prev(info);
+        }
+    }));
+}
+
+fn threads() -> usize {
+    vx::default_threads()
+}
+
+fn main() {
+    let cli = vx::parse_cli();
+    init_panic_handling();
+    let code = match cli.id.as_str() {
+        "C22" => run_c22(&cli),
+        "C29" => c29::run(&cli),
+        other => {
+            println!("MACHINERY-ERROR vsched: unknown property '{other}' (C22, C29)");
+            2
+        }
+    };
+    std::process::exit(code);
+}
+
+// ------------------------------------------------------------------------------------ C22
+
+fn run_c22(cli: &vx::Cli) -> i32 {
+    let mut rep = vx::Report::new("C22", cli.tier);
+    let thorough = cli.tier.is_thorough();
+    rep.rule("one case = one complete schedule (sequence of shuttle task ids) of one configuration (job outcome vector x workers x stop_on_error x progress callback x canceller); a configuration is non-trivial when it has more than one schedule; distinct outcomes = distinct (end kind, summary, final progress, set of operations that ran)");
+    rep.assume("interleaving (sequentially consistent) semantics at shuttle's scheduling points: every atomic/mutex/channel/spawn/join operation of batch/{mod,worker,progress}.rs; the modules use only SeqCst atomics, Mutex and mpsc, and no unsafe");
+    rep.assume("thread::sleep in the progress poller is a scheduling point, not a delay (shuttle does not model time); the harness' progress callback yields so that the polling loop is scheduled fairly");
+    rep.assume("schedules with more preemptions than the stated bound are not explored (CHESS context bounding); a switch at a blocking, finishing or yielding point is free");
+    rep.assume("final ProgressInfo is only observable through the progress callback, so that clause is checked in the callback=on half of the configurations");
+    rep.assume("the hook shim turns a panicking worker thread into join()==Err as std does");
+
+    if let Some(path) = &cli.replay {
+        return replay_c22(rep, path);
+    }
+
+    let probe = {
+        let _m = Muted::new();
+        c22_panic_probe()
+    };
+    rep.note("panic_unwind_probe", probe.note.clone());
+    let mut cfgs = c22::configs(thorough);
+    // development aid: `--cfg n,workers,stop,cb,cancel,bound,o0,o1..` runs that one configuration
+    if let Some(i) = cli.rest.iter().position(|a| a == "--cfg") {
+        let nums: Vec<u32> = cli.rest.get(i + 1).map(|s| s.split(',').filter_map(|x| x.parse().ok()).collect()).unwrap_or_default();
+        let mut ch = vec![nums.len() as u32 + 1];
+        ch.extend(nums);
+        match c22::Cfg::decode(&ch) {
+            Ok((c, _)) => cfgs = vec![c],
+            Err(e) => {
+                println!("MACHINERY-ERROR property=C22 --cfg: {e}");
+                return 2;
+            }
+        }
+    }
+    let total_cfgs = cfgs.len();
+    let mut excluded = 0usize;
+    if !probe.faithful {
+        cfgs.retain(|c| !c.outcomes.contains(&c22::PANIC));
+        excluded = total_cfgs - cfgs.len();
+        elog(&format!(
+            "[C22] WARNING: {excluded} configurations with a Panic outcome are EXCLUDED: under this build a sender/receiver dropped while a thread unwinds is not released (shuttle skips its Drop when std::thread::panicking()), so every such run would deadlock for a reason that does not exist under std. See evidence note panic_unwind_probe."
+        ));
+    }
+    elog(&format!(
+        "[C22] tier={} configurations={} threads={}",
+        cli.tier.name(),
+        cfgs.len(),
+        threads()
+    ));
+    let plan = c22::Plan::for_tier(thorough);
+    rep.note("iterative_context_bounding_plan", json!({"budget_predicted_schedules_per_configuration": plan.budget, "max_bound_jobs_le_2": plan.max_bound_small, "max_bound_jobs_3": plan.max_bound_n3}));
+    let single = cli.rest.iter().any(|a| a == "--cfg");
+    // guard against a runaway run only (quick is planned for well under a minute, thorough under 15)
+    let deadline = bdfs::deadline(if thorough { 45 * 60 } else { 15 * 60 });
+    let out = {
+        let _m = Muted::new();
+        if single {
+            // development aid: exactly the bound given on the command line
+            let want = cfgs[0].bound;
+            let p = c22::Plan { budget: u64::MAX, max_bound_small: want, max_bound_n3: want };
+            c22::explore_icb(cfgs, p, threads(), deadline)
+        } else {
+            c22::explore_icb(cfgs, plan, threads(), deadline)
+        }
+    };
+    let mut machinery: Vec<String> = Vec::new();
+    for (c, a) in out.cfgs.iter().zip(out.accs.iter()) {
+        elog(&format!(
+            "[C22] {:<100} schedules per bound={:?} points={:>10} outcomes={:>3} ends={:?} viol={:?}",
+            c.describe(),
+            out.rounds[out.cfgs.iter().position(|x| std::ptr::eq(x, c)).unwrap()],
+            a.states,
+            a.outcomes.len(),
+            a.ends,
+            a.viol.iter().map(|(k, v)| format!("{k} x{}", v.count)).collect::<Vec<_>>()
+        ));
+        if let Some(f) = &a.fatal {
+            machinery.push(format!("{}: {f}", c.describe()));
+        }
+        // the canceller's position must really be explored: cancelling before / after the jobs
+        // gives different summaries
+        if out.capped.is_some() {
+            continue;
+        }
+        if c.cancel && a.outcomes.len() < 2 && a.fatal.is_none() {
+            machinery.push(format!(
+                "{}: only {} distinct outcome(s) although the canceller can run before or after the jobs",
+                c.describe(),
+                a.outcomes.len()
+            ));
+        }
+        if a.execs == 0 && a.fatal.is_none() {
+            machinery.push(format!("{}: no schedule was executed", c.describe()));
+        }
+    }
+    for (mut st, found) in c22::sections(&out) {
+        if excluded > 0 {
+            st.caps_hit.push(format!(
+                "panic outcomes excluded in this build ({excluded} configurations overall): shuttle does not release channel ends dropped during unwinding"
+            ));
+            st.exhaustive = false;
+        }
+        rep.add_section(st, found);
+    }
+    rep.note("configurations_total", json!(total_cfgs));
+    rep.note("configurations_excluded_panic", json!(excluded));
+    if let Some(p) = LAST_PANIC.lock().unwrap().clone() {
+        rep.note("last_unexpected_panic_message", json!(p));
+    }
+    for m in machinery {
+        rep.machinery_error(m);
+    }
+    rep.finish()
+}
+
+struct Probe {
+    faithful: bool,
+    note: serde_json::Value,
+}
+
+/// Does a channel end that is dropped while a worker unwinds from a panic get released, as it
+/// does under std? (shuttle-std 0.1.1 skips `Sender::drop`/`Receiver::drop` when
+/// `std::thread::panicking()`.) Two observations: a library-free one on raw shuttle, and the
+/// smallest real batch (1 job that panics, 1 worker, no callback, bound 0).
+fn c22_panic_probe() -> Probe {
+    use bdfs::{End, ExecReport, Limits, Workload};
+    use std::sync::Arc;
+    struct Raw;
+    impl Workload for Raw {
+        fn before(&self) {}
+        fn body(&self) {
+            let (tx, rx) = shuttle::sync::mpsc::channel::<u8>();
+            let h = oxidize_pdf::verif_hooks::sched::thread::spawn(move || {
+                let _keep = tx;
+                panic!("C22 harness: job probe panics");
+            });
+            let _ = h.join();
+            let _ = rx.recv(); // Err(disconnected) under std semantics
+        }
+        fn after(&self, _e: &End, _s: &[u8], _w: bool) -> ExecReport {
+            ExecReport { outcome: 0, violations: vec![], rendered: None }
+        }
+    }
+    let lim = Limits { bound: 0, horizon: 2000, spin_limit: 20 };
+    let raw = bdfs::run_item(bdfs::WorkItem::root(0), lim, Arc::new(Raw), None, None);
+    let raw_deadlocks = raw.ends.get("deadlock").copied().unwrap_or(0);
+    let cfg = c22::Cfg { n: 1, par: 1, stop: false, cb: false, cancel: false, bound: 0, outcomes: vec![c22::PANIC] };
+    let b = bdfs::run_item(bdfs::WorkItem::root(0), lim, Arc::new(c22::Load { cfg }), None, None);
+    let b_deadlocks = b.ends.get("deadlock").copied().unwrap_or(0);
+    let artefact = raw_deadlocks == raw.execs && raw.execs > 0 && b_deadlocks == b.execs && b.execs > 0;
+    Probe {
+        faithful: !artefact,
+        note: json!({
+            "raw_shuttle_sender_dropped_during_unwind": {"schedules": raw.execs, "deadlocks": raw_deadlocks},
+            "batch_1_panicking_job_1_worker": {"schedules": b.execs, "deadlocks": b_deadlocks},
+            "panic_outcomes_explored": !artefact,
+            "explanation": "shuttle-std 0.1.1 Sender/Receiver::drop return early when std::thread::panicking(); if the library's channel ends are dropped by an unwinding worker they are never released, which std does not do. Panic outcomes are explored only when the batch probe shows std behaviour (hook provides deferring channel ends)."
+        }),
+    }
+}
+
+fn replay_c22(mut rep: vx::Report, path: &std::path::Path) -> i32 {
+    let t = match vx::load_replay(path) {
+        Ok(t) => t,
+        Err(e) => {
+            println!("MACHINERY-ERROR property=C22 cannot read replay file: {e}");
+            return 2;
+        }
+    };
+    let (cfg, schedule) = match c22::Cfg::decode(&t.choices) {
+        Ok(x) => x,
+        Err(e) => {
+            println!("MACHINERY-ERROR property=C22 replay file: {e}");
+            return 2;
+        }
+    };
+    println!("replay section={} config: {}", t.section, cfg.describe());
+    println!("schedule (task ids): {schedule:?}");
+    let acc = c22::replay(&cfg, schedule);
+    if let Some(f) = &acc.fatal {
+        println!("MACHINERY-ERROR property=C22 replay diverged: {f}");
+        return 2;
+    }
+    for (k, v) in &acc.viol {
+        println!("violation key={k} detail={}", v.detail);
+        if let Some(r) = &v.rendered {
+            println!("case={}", serde_json::to_string(r).unwrap_or_default());
+        }
+        rep.replay_hits.push(vx::Violation { key: k.clone(), detail: v.detail.clone() });
+    }
+    if acc.viol.is_empty() {
+        for s in &acc.samples {
+            println!("case={}", serde_json::to_string(s).unwrap_or_default());
+        }
+    }
+    rep.replay = Some(t);
+    rep.replay_ran = true;
+    rep.finish()
+}
